@@ -14,6 +14,7 @@ absorb-keyed            record stores keyed on `absorb` name the site that
 """
 
 import ast
+import re
 
 from ..framework import RuleResult, Finding
 from ..model import dotted, src_of, const_value
@@ -346,7 +347,7 @@ def rule_record(ctx, only=None, min_handoffs=15):
                     "record-after-structure", q,
                     f"structural change `{text}` (line {line}) is followed by the exit at line {bad_exit.lineno} that hands "
                     f"`{obj}` back without a new store to info['cur_orthog']",
-                    where=where, operand=" ".join(text.split())[:50],
+                    where=where, operand=" ".join(re.sub(r"\b%s\b" % re.escape(obj), "<net>", text).split())[:50],
                 ))
             else:
                 r_struct.ok(f"{q}:{text}", sample={"function": q, "event": text, "followed by": "record store" if nxt else "no hand-back"})
